@@ -5,6 +5,7 @@
 //   imbsim determinism --profile P --runs N              (each seed twice, compare hashes)
 #include "driver.h"
 #include <unistd.h>
+#include <sys/stat.h>
 #include <stdlib.h>
 #include <stdio.h>
 
@@ -148,6 +149,15 @@ main(int argc, char **argv)
                 cfg.workers = atoi(arg(argc, argv, "--workers", "16"));
                 cfg.runs = strtoull(arg(argc, argv, "--runs", "0"), nullptr, 0);
                 cfg.budget_s = atof(arg(argc, argv, "--budget", "0"));
+                if ((cfg.runs || cfg.budget_s > 0 || getenv("VERIF_ENUM")) && !getenv("VERIF_OUT")) {
+                        // an ad-hoc run (explicit volume, or the enumeration aid): do not overwrite the registered evidence
+                        const char *vd = getenv("VERIF_DIR");
+                        std::string od = std::string(vd ? vd : "/verif") + "/.cache/adhoc";
+                        mkdir((std::string(vd ? vd : "/verif") + "/.cache").c_str(), 0755);
+                        mkdir(od.c_str(), 0755);
+                        setenv("VERIF_OUT", od.c_str(), 1);
+                        fprintf(stderr, "note: ad-hoc run, evidence and replays go to %s\n", od.c_str());
+                }
                 return check_main(cfg.prop, cfg);
         }
         fprintf(stderr, "unknown command %s\n", cmd.c_str());
